@@ -172,7 +172,14 @@ def _exponential_cap(base_s: float, factor: float, attempt: int, max_s: float) -
     try:
         grown = base_s * (factor**attempt)
     except OverflowError:
-        grown = math.inf if base_s > 0 else 0.0
+        # factor**attempt alone overflows; for a tiny base_s the product may still be finite.
+        if base_s <= 0:
+            grown = 0.0
+        else:
+            try:
+                grown = math.exp(math.log(base_s) + attempt * math.log(factor))
+            except OverflowError:
+                grown = math.inf
     return min(max_s, grown)
 
 
